@@ -1,13 +1,13 @@
 package main
 
 import (
-	"time"
 	"errors"
 	"fmt"
 	gofs "io/fs"
 	"os"
 	"path"
 	"strings"
+	"time"
 
 	"github.com/hack-pad/hackpadfs"
 	hpos "github.com/hack-pad/hackpadfs/os"
